@@ -285,6 +285,8 @@ def _oracle_class(case, obs):
             out.append(('dict_differs', json.dumps(obs.get('reser'))[:200]))
         if obs.get('out_eq') is False:
             out.append(('outcome_differs', obs.get('out_diff')))
+    if out:
+        return out                       # the JSON-text path is reported only when the in-memory path is clean
     if obs['json'] != 'ok':
         out.append(('json_raises', obs['json']['exc']))
     else:
@@ -313,9 +315,8 @@ def _compare_class(case, iobs, mobs):
     if _is_err(mb) and mb['err'] == 'unmodelled':
         return None
     if iobs.get('load') != 'ok':
-        if _is_err(mb) and _err_proto(iobs['load']) == mb['err']:
-            return None
-        return f"load: impl={json.dumps(iobs.get('load'))} model={json.dumps(mb)[:200]}"
+        # the model has no constructors: a refusal by a class constructor is the oracle's business (load_raises)
+        return None
     if _is_err(mb):
         return f"load: impl=ok model={json.dumps(mb)}"
     if _is_err(iobs.get('reser')) or _is_err(mobs['reser']):
@@ -793,10 +794,22 @@ def compare(case, iobs, mobs):
     return COMPARE[case['op']](case, iobs, mobs)
 
 
+# class_rt: which known-defect trigger of the constructor spec explains which clause (first one present wins)
+CLASS_CLAUSE_HAZ = {
+    'outcome_differs': ['validator_defaultdict'], 'json_outcome_differs': ['validator_defaultdict'],
+    'dict_differs': ['validator_defaultdict'], 'json_dict_differs': ['validator_defaultdict'],
+    'load_raises': ['checker_nonint_bounds', 'star_fraction', 'star_unscored_name'],
+    'json_raises': ['checker_nonint_bounds', 'star_fraction', 'star_unscored_name'],
+    'save_raises': ['openlist_quota_fraction'],
+}
+
+
 def signature(case, clause):
-    """op : clause : hazard features of the input ('-' = none).  Generated cases carry at most one hazard."""
+    """op : clause : hazard features of the input ('-' = none).  Generated io/codec cases carry at most one hazard."""
     f = HAZ.get(case['op'])
     h = sorted(f(case)) if f else []
+    if case['op'] == 'class_rt':
+        h = [x for x in CLASS_CLAUSE_HAZ.get(clause, []) if x in h][:1]
     return f"{case['op']}:{clause}:{'+'.join(h) or '-'}"
 
 
